@@ -1,6 +1,10 @@
 use crate::{device::Device, expr::Expr, instruction::register::Reg8, parser::SegmentType};
 
-use std::{cell::RefCell, collections::HashMap, rc::Rc};
+use std::{
+    cell::{Cell, RefCell},
+    collections::HashMap,
+    rc::Rc,
+};
 
 use maplit::hashmap;
 
@@ -18,6 +22,11 @@ pub trait Context {
     fn set_label(&self, _name: String, _value: (SegmentType, u32)) -> Option<(SegmentType, u32)>;
     fn set_def(&self, _name: String, _value: Reg8) -> Option<Reg8>;
     fn set_special(&self, _name: String, _value: Expr) -> Option<Expr>;
+
+    /// Books the work of one expression evaluation, false when the build has used up its share
+    fn spend_evaluation_steps(&self, _steps: usize) -> bool {
+        true
+    }
 
     fn get_expr(&self, name: &String) -> Option<Expr> {
         #[cfg(feature = "verif")]
@@ -60,6 +69,12 @@ pub trait Context {
     }
 }
 
+/// Evaluation steps all expressions of one build may take together. One evaluation is bounded (a
+/// symbol keeps its defining expression, `.equ b = a + a` / `.equ c = b + b` / ... doubles the work
+/// with every line), but a source may use such a symbol on every line. No program that fits a
+/// device comes near this: a quarter of a million data words with ten operators each need 1/6 of it.
+const MAX_BUILD_EVALUATION_STEPS: usize = 1 << 24;
+
 #[derive(Clone, PartialEq, Eq, Debug)]
 pub struct CommonContext {
     // defines
@@ -74,6 +89,8 @@ pub struct CommonContext {
     pub sets: Rc<RefCell<HashMap<String, Expr>>>,
     // special
     pub special: Rc<RefCell<HashMap<String, Expr>>>,
+    // evaluation steps spent by the expressions of this build
+    pub evaluation_steps: Rc<Cell<usize>>,
     // device
     pub device: Rc<RefCell<Option<Device>>>,
 }
@@ -87,6 +104,7 @@ impl CommonContext {
             defs: Rc::new(RefCell::new(hashmap! {})),
             sets: Rc::new(RefCell::new(hashmap! {})),
             special: Rc::new(RefCell::new(hashmap! {})),
+            evaluation_steps: Rc::new(Cell::new(0)),
             device: Rc::new(RefCell::new(Some(Device::new(0)))),
         }
     }
@@ -146,6 +164,12 @@ impl Context for CommonContext {
             .as_ref()
             .unwrap_or(&Device::new(0))
             .clone()
+    }
+
+    fn spend_evaluation_steps(&self, steps: usize) -> bool {
+        let spent = self.evaluation_steps.get().saturating_add(steps);
+        self.evaluation_steps.set(spent);
+        spent <= MAX_BUILD_EVALUATION_STEPS
     }
 
     fn exist(&self, name: &String) -> bool {
